@@ -738,6 +738,7 @@ func (fr *Frame) callCommon(cc *ssa.CallCommon, args []Val, fv Val, res ssa.Valu
 		fr.nilCheck(recv, "invoke("+fr.stableName(cc.Value)+"."+cc.Method.Name()+")")
 		name := cc.Method.FullName()
 		all := append([]Val{recv}, args...)
+		defer func() { fr.assumeAtCall(name) }()
 		fr.assertAtCall(name, all, cc.Signature())
 		fr.effectCheckCallee(nil, name)
 		// a contract given for the static interface type of the receiver (e.g. (hash.Hash).Write) takes precedence
